@@ -13,6 +13,30 @@ CHECKS = {
         note="Trusts vf/sgr.py as the ANSI terminal (ECMA-48/xterm SGR semantics for the supported parameters) and cell equality (bold=False == absent) as 'same formatting'.",
         ref="4/C01",
     ),
+    "C02": dict(
+        technique="Hypothesis model-based history test of the real window against a reference terminal emulator (xterm semantics)",
+        text="Exploration over generated render/resize histories on terminals 1..6 x 1..8: after every render every screen cell of the reference terminal must equal the array (or blank), the cursor must sit at cursor_pos and nothing may have scrolled.",
+        note="Trusts vf/refterm.py (pending wrap, BCE, alt screen, DECSC/DECRC) as the terminal; size delivered through TIOCSWINSZ on a pty; unknown escape sequences are harness errors.",
+        ref="4/C02",
+    ),
+    "C04": dict(
+        technique="Hypothesis model-based history test (assign/read sequences) against a cell-grid reference model",
+        text="Exploration over generated histories of region assignments and reads on small arrays (h<=5, w<=7, zero sizes, constructor formatting, FSArray and list blocks, fitting/short/long/empty rows, wrong row counts, growth) compared with a grid model after every step; error cases must raise and change no cell.",
+        note="Neutral zones where the statement is silent (row longer than the region reaching only blank cells, empty regions) are resynchronised, not judged.",
+        ref="4/C04",
+    ),
+    "C07": dict(
+        technique="Hypothesis model-based history test of the real window against a reference terminal with scrollback (tape oracle)",
+        text="Exploration over generated initial screens (0..h+4 history lines, cursor on any row, optional junk below), render sequences (heights 0..h+4) and context exit on terminals 2..6 x 3..8; the tape (scrollback+screen) is checked after every render for untouched history, array placement, blank remainder, exact scroll count, return value and cursor cell.",
+        note="Trusts vf/refterm.py; DSR answered from the model's cursor; caller drops rows reported as pushed off-screen.",
+        ref="4/C07",
+    ),
+    "C18": dict(
+        technique="Hypothesis property test with scripted input stream and fault injection (OSError), plus model-based histories for movement accounting",
+        text="Exploration: generated reports (1..10^6, 7/8-bit CSI), preceding look-alike input, trailing input, injected read errors, callback present/absent, two encodings; movement histories with renders, cursor movements, queries and nested queries injected at generated read positions, judged by a conservation law.",
+        note="A complete report inside the extra input is excluded (indistinguishable); movement/queries before the first render are outside the statement.",
+        ref="4/C18",
+    ),
     "C03": dict(
         technique="exhaustive decision-tree enumeration (multiprocessing) + cross-product enumeration + Hypothesis byte-stream generation against an independent tokeniser model",
         text="Exploration, exhaustive on the decoder's ESC-rooted decision tree (every node x every next byte x full in {F,T} x 3 encodings x 3 naming modes), on the valid-UTF-8 prefix tree (quick: <=2-byte prefixes; thorough: all 17.6k prefixes x 256), on table-sequence x next-byte, and (thorough) table x table pairs and all 1,112,064 Unicode scalars; sampled off the valid UTF-8 paths (2^40 leaves) and for multi-read streams.",
